@@ -10,18 +10,20 @@ import time
 from pathlib import Path
 
 sid, tier, checks = sys.argv[1], sys.argv[2], sys.argv[3:]
-wt = Path(f'/tmp/seedrun/{sid}')
-outdir = Path(f'/tmp/seedout/{sid}')
+ROOT = Path(__file__).resolve().parent.parent  # the /verif checkout this tool lives in (a snapshot under `vp run`)
+tag = os.environ.get('SEED_RUN_TAG', '')
+wt = Path(f'/tmp/seedrun{tag}/{sid}')
+outdir = Path(f'/tmp/seedout{tag}/{sid}')
 outdir.mkdir(parents=True, exist_ok=True)
 wt.parent.mkdir(parents=True, exist_ok=True)
 subprocess.run(f'git -C /repo worktree remove --force {wt}', shell=True, capture_output=True)
 subprocess.run(f'git -C /repo worktree add --detach {wt} HEAD', shell=True, capture_output=True, check=True)
 try:
-    subprocess.run(f'git -C {wt} apply /verif/seeded/{sid}/patch.diff', shell=True, check=True)
+    subprocess.run(f'git -C {wt} apply {ROOT}/seeded/{sid}/patch.diff', shell=True, check=True)
     for c in checks:
         env = dict(os.environ, VERIF_REPO=str(wt), VERIF_OUT=str(outdir), VERIF_NO_REGRESS=os.environ.get('VERIF_NO_REGRESS', '1'))
         t0 = time.time()
-        r = subprocess.run(['/venv/bin/python', '-m', 'vlib.run', c, '--tier', tier], cwd='/verif', env=env,
+        r = subprocess.run(['/venv/bin/python', '-m', 'vlib.run', c, '--tier', tier], cwd=str(ROOT), env=env,
                            capture_output=True, text=True)
         sig = [l.strip() for l in r.stdout.splitlines() if l.strip().startswith('signature:')]
         (outdir / f'{c}.log').write_text(r.stdout + r.stderr)
